@@ -765,6 +765,10 @@ func main() {
 		os.Exit(2)
 	}
 	runtime.GOMAXPROCS(runtime.NumCPU())
+	if *prop == "pair" {
+		mainPair(*seed, *n, *out, *parallel)
+		return
+	}
 	w := vh.NewWriter(*out)
 	defer w.Close()
 	if *variantsOf != "" {
